@@ -569,6 +569,7 @@ def _r6(repo: Repo, ctx) -> None:
     if n_f < 2:
         raise AnalysisError(f'C12.R8: only {n_f} common-type folds found')
     _r9(repo, ctx)
+    _r10(repo, ctx)
 
 
 def _roots(fn_node: ast.AST, name: str, params: Set[str],
@@ -706,3 +707,87 @@ def _r9(repo: Repo, ctx) -> None:
                f'anytype>>) is replaced by the bare concrete type, so the '
                f'inferred type loses a collection level', f.loc,
                sample=f'{len(uses)} uses, all recursive arguments')
+
+
+def _r10(repo: Repo, ctx) -> None:
+    """C12.R10
+    (a) binding of `anytype`: when an argument resolves the polymorphic
+        parameter to a type that differs from the one bound so far, the
+        argument is accepted only through the common-type search, which
+        *widens* the binding (`{[1], [2.5]}` is array<float64>).  Stated as a
+        path fact on polyres._get_cast_distance: under the assumption that
+        the two types differ, no accepting return is reached without passing
+        find_common_implicitly_castable_type.
+    (b) the common type of a range and a multirange is a multirange: the
+        collection class built by Range.find_common_implicitly_castable_type
+        is chosen from `other`, never from `self` alone (self is a Range
+        there)."""
+    from ..absint import Facts, closed_edges
+    ctx.floor('C12.R10', 2)
+    gd = repo.functions.get(
+        'edb.edgeql.compiler.polyres.try_bind_call_args._get_cast_distance')
+    if gd is None:
+        raise AnalysisError('C12.R10: _get_cast_distance not found')
+    ctx.saw(gd)
+    g = CFG(gd.node)
+    facts = {'basic_matching_only': False, 'in_polymorphic_func': False,
+             'param_type.is_polymorphic(schema)': True,
+             'arg_type.test_polymorphic(schema, param_type)': True,
+             'resolved is None': False,
+             'resolved_poly_base_type == resolved': False}
+    fx = Facts(facts, fn_node=gd.node)
+    search = [n.id for n in g.nodes if n.kind == 'stmt' and n.ast is not None
+              and 'find_common_implicitly_castable_type' in norm(n.ast)]
+    accept = [n.id for n in g.nodes if n.kind == 'stmt' and isinstance(
+        n.ast, ast.Return) and n.ast.value is not None and norm(
+        n.ast.value) != '-1']
+    if not search or not accept:
+        raise AnalysisError('C12.R10: common-type search / accepting '
+                            'returns of _get_cast_distance not found')
+    if 'resolved_poly_base_type == resolved' not in norm(gd.node):
+        raise AnalysisError('C12.R10: _get_cast_distance no longer compares '
+                            'the bound type with the resolved one')
+    seen = g.reachable([g.entry], avoid=set(search),
+                       avoid_edges=closed_edges(g, fx))
+    direct = sorted(g.nodes[i].lineno for i in seen & set(accept))
+    ctx.ob('C12.R10', '_get_cast_distance:differing-binding-goes-through-'
+           'common-type', not direct,
+           f'an argument whose type differs from the type `anytype` is '
+           f'bound to so far is accepted (lines {direct}) without the '
+           f'common-type search that widens the binding: the later, wider '
+           f'argument is then cast *down* to the first one\'s type and the '
+           f'reported element type does not cover the values',
+           gd.loc, sample='accept only after find_common_implicitly_'
+                          'castable_type')
+    # (b)
+    rc = repo.cls('edb.schema.types.Range')
+    fc = rc.methods.get('find_common_implicitly_castable_type')
+    if fc is None:
+        raise AnalysisError('C12.R10: Range.find_common_implicitly_castable_'
+                            'type not found')
+    ctx.saw(fc)
+    from ..model import inline_locals
+    other = fc.params()[1]
+    n = 0
+    for c in ast.walk(fc.node):
+        if isinstance(c, ast.Call) and isinstance(c.func, ast.Attribute) \
+                and c.func.attr == 'from_subtypes':
+            n += 1
+            src = inline_locals(fc.node, c.func.value)
+            # every definition of the class variable mentions `other`
+            defs = [a for a in ast.walk(fc.node) if isinstance(
+                a, (ast.Assign, ast.AnnAssign)) and norm(
+                a.targets[0] if isinstance(a, ast.Assign) else a.target) ==
+                norm(c.func.value)]
+            ok = all(any(isinstance(x, ast.Name) and x.id == other
+                         for x in ast.walk(a.value)) for a in defs) \
+                if defs else (other in src)
+            ctx.ob('C12.R10', 'Range.find_common:class-from-other', ok,
+                   f'the common type of a range with `{other}` is built as '
+                   f'`{src[:50]}`, which does not depend on `{other}`: with '
+                   f'a multirange on the other side the result is a range, '
+                   f'so `[<range>$r, <multirange>$m]` is typed '
+                   f'array<range<..>> and the multirange value does not fit',
+                   f'{fc.module.rel()}:{c.lineno}', sample=src[:50])
+    if n < 1:
+        raise AnalysisError('C12.R10: from_subtypes call not found')
